@@ -1231,6 +1231,17 @@ func (engine) Run(ci any) lib.Result {
 	for k := range scls {
 		tags = append(tags, "stream:"+k)
 	}
+	// runs made with an empty map value (the empty map, the typed nil map)
+	for _, r := range bo.Runs {
+		ez := isMapZ(r.Input)
+		for _, v := range r.Emit {
+			ez = ez || isMapZ(v)
+		}
+		if ez {
+			tags = append(tags, "emptymap:yes")
+			break
+		}
+	}
 	mcls := map[string]bool{}
 	for _, r := range bo.Runs {
 		if r.MClass != "" {
